@@ -886,3 +886,20 @@ TWINS += [
     ]},
     {"name": "FileStorage: default headers by conditional expression, content type via set", "edits": [(FS, "        if headers is None:\n            headers = Headers()\n        self.headers = headers\n        if content_type is not None:\n            headers[\"Content-Type\"] = content_type\n", "        self.headers = headers = Headers() if headers is None else headers\n        if content_type is not None:\n            headers.set(\"Content-Type\", content_type)\n")]},
 ]
+
+# ---- stress round (fresh ordinary-style refactorings that tripped a rule, own variants, and mutants in those shapes)
+TWINS += [
+    {'name': 'stress-a10-add-file-storage-built-by-private-staticmethod', 'edits': [('datastructures/file_storage.py', '        if isinstance(file, FileStorage):\n            self.add(name, file)\n            return\n\n        if isinstance(file, (str, os.PathLike)):\n            if filename is None:\n                filename = os.fspath(file)\n\n            file_obj: t.IO[bytes] = open(file, "rb")\n        else:\n            file_obj = file  # type: ignore[assignment]\n\n        if filename and content_type is None:\n            content_type = (\n                mimetypes.guess_type(filename)[0] or "application/octet-stream"\n            )\n\n        self.add(name, FileStorage(file_obj, filename, name, content_type))\n', '        if not isinstance(file, FileStorage):\n            file = self._make_storage(name, file, filename, content_type)\n\n        self.add(name, file)\n\n    @staticmethod\n    def _make_storage(\n        name: str,\n        file: str | os.PathLike[str] | t.IO[bytes],\n        filename: str | None,\n        content_type: str | None,\n    ) -> FileStorage:\n        """Wrap a file name or file-like object in a :class:`FileStorage`,\n        opening the file and guessing the content type if needed.\n        """\n        stream: t.IO[bytes]\n\n        if isinstance(file, str) or isinstance(file, os.PathLike):\n            filename = os.fspath(file) if filename is None else filename\n            stream = open(file, "rb")\n        else:\n            stream = file\n\n        if filename and content_type is None:\n            guessed_type = mimetypes.guess_type(filename)[0]\n            content_type = guessed_type or "application/octet-stream"\n\n        return FileStorage(stream, filename, name, content_type)\n')]},
+    {'name': 'stress-b08-headers-filled-in-place-split-with-length-guard', 'edits': [('sansio/multipart.py', '        headers: list[tuple[str, str]] = []\n        # Merge the continued headers into one line\n        data = HEADER_CONTINUATION_RE.sub(b" ", data)\n        # Now there is one header per line\n        for line in data.splitlines():\n            line = line.strip()\n\n            if line != b"":\n                name, _, value = line.decode().partition(":")\n                headers.append((name.strip(), value.strip()))\n        return Headers(headers)\n', '        headers = Headers()\n        # Merge the continued headers into one line, so that there is\n        # one header per line\n        unfolded = HEADER_CONTINUATION_RE.sub(b" ", data)\n\n        for raw_line in unfolded.splitlines():\n            line = raw_line.strip().decode()\n\n            if not line:\n                continue\n\n            # A line without a colon is a header name with an empty value\n            fields = line.split(":", 1)\n            name = fields[0]\n            value = fields[1] if len(fields) == 2 else ""\n            headers.add(name.strip(), value.strip())\n\n        return headers\n')]},
+    {'name': 'stress-own-add-file-storage-built-by-private-method', 'edits': [('datastructures/file_storage.py', '        if isinstance(file, (str, os.PathLike)):\n            if filename is None:\n                filename = os.fspath(file)\n\n            file_obj: t.IO[bytes] = open(file, "rb")\n        else:\n            file_obj = file  # type: ignore[assignment]\n\n        if filename and content_type is None:\n            content_type = (\n                mimetypes.guess_type(filename)[0] or "application/octet-stream"\n            )\n\n        self.add(name, FileStorage(file_obj, filename, name, content_type))\n', '        self.add(name, self._storage_for(name, file, filename, content_type))\n\n    def _storage_for(\n        self,\n        field: str,\n        source: t.Any,\n        filename: str | None,\n        content_type: str | None,\n    ) -> FileStorage:\n        opened: t.IO[bytes]\n\n        if isinstance(source, (str, os.PathLike)):\n            opened = open(source, "rb")\n\n            if filename is None:\n                filename = os.fspath(source)\n        else:\n            opened = source\n\n        if content_type is None and filename:\n            content_type = self._guess_type(filename)\n\n        return FileStorage(\n            stream=opened, filename=filename, name=field, content_type=content_type\n        )\n\n    @staticmethod\n    def _guess_type(filename: str) -> str:\n        return mimetypes.guess_type(filename)[0] or "application/octet-stream"\n')]},
+    {'name': 'stress-own-headers-extended-line-by-line', 'edits': [('sansio/multipart.py', '        headers: list[tuple[str, str]] = []\n        # Merge the continued headers into one line\n        data = HEADER_CONTINUATION_RE.sub(b" ", data)\n        # Now there is one header per line\n        for line in data.splitlines():\n            line = line.strip()\n\n            if line != b"":\n                name, _, value = line.decode().partition(":")\n                headers.append((name.strip(), value.strip()))\n        return Headers(headers)\n', '        result = Headers()\n        # Merge the continued headers into one line\n        data = HEADER_CONTINUATION_RE.sub(b" ", data)\n        # Now there is one header per line\n        for line in data.splitlines():\n            text = line.strip().decode()\n\n            if text == "":\n                continue\n\n            colon = text.find(":")\n\n            if colon < 0:\n                pair = (text.strip(), "")\n            else:\n                pair = (text[:colon].strip(), text[colon + 1 :].strip())\n\n            result.extend([pair])\n        return result\n')]},
+]
+MUTANTS += [
+    {'name': 'stress-private-staticmethod-swaps-filename-and-name', 'expect': 'R2.6', 'edits': [('datastructures/file_storage.py', '        if isinstance(file, FileStorage):\n            self.add(name, file)\n            return\n\n        if isinstance(file, (str, os.PathLike)):\n            if filename is None:\n                filename = os.fspath(file)\n\n            file_obj: t.IO[bytes] = open(file, "rb")\n        else:\n            file_obj = file  # type: ignore[assignment]\n\n        if filename and content_type is None:\n            content_type = (\n                mimetypes.guess_type(filename)[0] or "application/octet-stream"\n            )\n\n        self.add(name, FileStorage(file_obj, filename, name, content_type))\n', '        if not isinstance(file, FileStorage):\n            file = self._make_storage(name, file, filename, content_type)\n\n        self.add(name, file)\n\n    @staticmethod\n    def _make_storage(\n        name: str,\n        file: str | os.PathLike[str] | t.IO[bytes],\n        filename: str | None,\n        content_type: str | None,\n    ) -> FileStorage:\n        """Wrap a file name or file-like object in a :class:`FileStorage`,\n        opening the file and guessing the content type if needed.\n        """\n        stream: t.IO[bytes]\n\n        if isinstance(file, str) or isinstance(file, os.PathLike):\n            filename = os.fspath(file) if filename is None else filename\n            stream = open(file, "rb")\n        else:\n            stream = file\n\n        if filename and content_type is None:\n            guessed_type = mimetypes.guess_type(filename)[0]\n            content_type = guessed_type or "application/octet-stream"\n\n        return FileStorage(stream, name, filename, content_type)\n')]},
+    {'name': 'stress-private-staticmethod-guess-overrides-explicit-type', 'expect': 'R2.6', 'edits': [('datastructures/file_storage.py', '        if isinstance(file, FileStorage):\n            self.add(name, file)\n            return\n\n        if isinstance(file, (str, os.PathLike)):\n            if filename is None:\n                filename = os.fspath(file)\n\n            file_obj: t.IO[bytes] = open(file, "rb")\n        else:\n            file_obj = file  # type: ignore[assignment]\n\n        if filename and content_type is None:\n            content_type = (\n                mimetypes.guess_type(filename)[0] or "application/octet-stream"\n            )\n\n        self.add(name, FileStorage(file_obj, filename, name, content_type))\n', '        if not isinstance(file, FileStorage):\n            file = self._make_storage(name, file, filename, content_type)\n\n        self.add(name, file)\n\n    @staticmethod\n    def _make_storage(\n        name: str,\n        file: str | os.PathLike[str] | t.IO[bytes],\n        filename: str | None,\n        content_type: str | None,\n    ) -> FileStorage:\n        """Wrap a file name or file-like object in a :class:`FileStorage`,\n        opening the file and guessing the content type if needed.\n        """\n        stream: t.IO[bytes]\n\n        if isinstance(file, str) or isinstance(file, os.PathLike):\n            filename = os.fspath(file) if filename is None else filename\n            stream = open(file, "rb")\n        else:\n            stream = file\n\n        if filename:\n            guessed_type = mimetypes.guess_type(filename)[0]\n            content_type = guessed_type or "application/octet-stream"\n\n        return FileStorage(stream, filename, name, content_type)\n')]},
+    {'name': 'stress-private-method-drops-explicit-filename', 'expect': 'R2.6', 'edits': [('datastructures/file_storage.py', '        if isinstance(file, (str, os.PathLike)):\n            if filename is None:\n                filename = os.fspath(file)\n\n            file_obj: t.IO[bytes] = open(file, "rb")\n        else:\n            file_obj = file  # type: ignore[assignment]\n\n        if filename and content_type is None:\n            content_type = (\n                mimetypes.guess_type(filename)[0] or "application/octet-stream"\n            )\n\n        self.add(name, FileStorage(file_obj, filename, name, content_type))\n', '        self.add(name, self._storage_for(name, file, filename, content_type))\n\n    def _storage_for(\n        self,\n        field: str,\n        source: t.Any,\n        filename: str | None,\n        content_type: str | None,\n    ) -> FileStorage:\n        opened: t.IO[bytes]\n\n        if isinstance(source, (str, os.PathLike)):\n            opened = open(source, "rb")\n\n            if filename is None:\n                filename = os.fspath(source)\n        else:\n            opened = source\n\n        if content_type is None and filename:\n            content_type = self._guess_type(filename)\n\n        return FileStorage(\n            stream=opened, filename=None, name=field, content_type=content_type\n        )\n\n    @staticmethod\n    def _guess_type(filename: str) -> str:\n        return mimetypes.guess_type(filename)[0] or "application/octet-stream"\n')]},
+    {'name': 'stress-in-place-headers-lower-case-the-value', 'expect': 'R2.2', 'edits': [('sansio/multipart.py', '        headers: list[tuple[str, str]] = []\n        # Merge the continued headers into one line\n        data = HEADER_CONTINUATION_RE.sub(b" ", data)\n        # Now there is one header per line\n        for line in data.splitlines():\n            line = line.strip()\n\n            if line != b"":\n                name, _, value = line.decode().partition(":")\n                headers.append((name.strip(), value.strip()))\n        return Headers(headers)\n', '        headers = Headers()\n        # Merge the continued headers into one line, so that there is\n        # one header per line\n        unfolded = HEADER_CONTINUATION_RE.sub(b" ", data)\n\n        for raw_line in unfolded.splitlines():\n            line = raw_line.strip().decode()\n\n            if not line:\n                continue\n\n            # A line without a colon is a header name with an empty value\n            fields = line.split(":", 1)\n            name = fields[0]\n            value = fields[1] if len(fields) == 2 else ""\n            headers.add(name.strip(), value.strip().lower())\n\n        return headers\n')]},
+    {'name': 'stress-length-guarded-split-at-the-last-colon', 'expect': 'R2.2', 'edits': [('sansio/multipart.py', '        headers: list[tuple[str, str]] = []\n        # Merge the continued headers into one line\n        data = HEADER_CONTINUATION_RE.sub(b" ", data)\n        # Now there is one header per line\n        for line in data.splitlines():\n            line = line.strip()\n\n            if line != b"":\n                name, _, value = line.decode().partition(":")\n                headers.append((name.strip(), value.strip()))\n        return Headers(headers)\n', '        headers = Headers()\n        # Merge the continued headers into one line, so that there is\n        # one header per line\n        unfolded = HEADER_CONTINUATION_RE.sub(b" ", data)\n\n        for raw_line in unfolded.splitlines():\n            line = raw_line.strip().decode()\n\n            if not line:\n                continue\n\n            # A line without a colon is a header name with an empty value\n            fields = line.rsplit(":", 1)\n            name = fields[0]\n            value = fields[1] if len(fields) == 2 else ""\n            headers.add(name.strip(), value.strip())\n\n        return headers\n')]},
+    {'name': 'stress-extended-headers-cut-at-the-last-colon', 'expect': 'R2.2', 'edits': [('sansio/multipart.py', '        headers: list[tuple[str, str]] = []\n        # Merge the continued headers into one line\n        data = HEADER_CONTINUATION_RE.sub(b" ", data)\n        # Now there is one header per line\n        for line in data.splitlines():\n            line = line.strip()\n\n            if line != b"":\n                name, _, value = line.decode().partition(":")\n                headers.append((name.strip(), value.strip()))\n        return Headers(headers)\n', '        result = Headers()\n        # Merge the continued headers into one line\n        data = HEADER_CONTINUATION_RE.sub(b" ", data)\n        # Now there is one header per line\n        for line in data.splitlines():\n            text = line.strip().decode()\n\n            if text == "":\n                continue\n\n            colon = text.rfind(":")\n\n            if colon < 0:\n                pair = (text.strip(), "")\n            else:\n                pair = (text[:colon].strip(), text[colon + 1 :].strip())\n\n            result.extend([pair])\n        return result\n')]},
+    {'name': 'stress-extended-headers-value-title-cased', 'expect': 'R2.2', 'edits': [('sansio/multipart.py', '        headers: list[tuple[str, str]] = []\n        # Merge the continued headers into one line\n        data = HEADER_CONTINUATION_RE.sub(b" ", data)\n        # Now there is one header per line\n        for line in data.splitlines():\n            line = line.strip()\n\n            if line != b"":\n                name, _, value = line.decode().partition(":")\n                headers.append((name.strip(), value.strip()))\n        return Headers(headers)\n', '        result = Headers()\n        # Merge the continued headers into one line\n        data = HEADER_CONTINUATION_RE.sub(b" ", data)\n        # Now there is one header per line\n        for line in data.splitlines():\n            text = line.strip().decode()\n\n            if text == "":\n                continue\n\n            colon = text.find(":")\n\n            if colon < 0:\n                pair = (text.strip(), "")\n            else:\n                pair = (text[:colon].strip(), text[colon + 1 :].strip().title())\n\n            result.extend([pair])\n        return result\n')]},
+]
